@@ -10,6 +10,7 @@ import Proofs.ExtractAcyclic
 import Proofs.ExtractShapeTie
 import Proofs.ExtractShapeAssoc
 import Proofs.ExtractShapeLinked
+import Proofs.ExtractShapeSubsup
 import Proofs.ExtractShapeScope
 import Proofs.ExtractShapeClass
 import Proofs.ExtractShapeAttrs
@@ -1287,7 +1288,9 @@ end PyxProps.C14
       rows without the two ends: AttributeError) — TOTAL, every ending;
     * mk_derived_association (nothing defined) and no R206 subtype row (TypeError) — TOTAL;
     * mk_linked_association — TOTAL, every ending (`linked_association_as_in_source`, Proofs/ExtractShapeLinked.lean; `_partial`
-      is the case whose three ends exist and resolve); mk_subsuper_association is covered by `association_ends_as_in_source` only.
+      is the case whose three ends exist and resolve);
+    * mk_subsuper_association — TOTAL, every ending, the loop over the R_SUB rows included (`subsuper_association_as_in_source`,
+      Proofs/ExtractShapeSubsup.lean); `association_as_in_source` is the capstone over all five dispatch cases.
   ========================================================================================================== -/
 namespace PyxProps.C14
 open Pyx.Extract Pyx.XShape Pyx.Gen.ExtractShape
@@ -1397,6 +1400,62 @@ example : iMkAssociation defs tieD 7 { tieLinked true false false true with refs
     { tieLinked true false false true with refsOth := [{ rattr := 1, iattr := 5 }] } (by decide)).symm
 /-- … and the kernel evaluates the interpretation of the IR to the same ending -/
 example : sameR (iMkAssociation defs tieD 7 { tieLinked true false false true with assr := none }) (.error .attributeError) = true := by
+  decide +kernel
+
+/-- mk_association -> mk_subsuper_association, for EVERY diagram, number and rows of a relationship dispatched to its R_SUBSUP row,
+    the loop `for r_sub in many(r_subsup).R_SUB[213]()` included (Proofs/ExtractShapeSubsup.lean: `subLoop`, induction over the
+    row list) and every ending: ONE `define_association` per R_SUB row, in row order, all with the relationship's number — the
+    subtype class is the source (conditional, never many, no phrase), the supertype class the target, the keys are the names of
+    the O_REF rows of THAT subtype (the OIR_ID filter of `_get_related_attributes` separates the subtypes' rows: `refsFor_sub`);
+    nothing at all without R_SUB rows (the supertype is never dereferenced then); AttributeError, with at least one R_SUB row,
+    exactly when the R_SUPER row, a class or an attribute of an O_REF row is missing.  In the order the IR evaluates: without
+    R_SUPER the first pass raises `source_o_obj.Key_Lett` / `target_o_obj.Key_Lett` (`_get_related_attributes(r_rgo, None)` has
+    returned two empty lists); with R_SUPER the first row j whose pair does not resolve raises `o_attr.Name` (an O_REF row),
+    `source_o_obj.Key_Lett` (subtype class) or `target_o_obj.Key_Lett` (supertype class) — the `define_association` calls of
+    the rows before j are lost with the exception, the model reports AttributeError -/
+theorem subsuper_association_as_in_source (d : ClassDiagram) (numb : Nat) (w : RelRows) (hd : w.dispatch = .subsup) :
+    expected numb (mkAssociation d w) = iMkAssociation defs d numb w := by
+  rw [dispatch_eq, hd]
+  simp only [mkAssociation, hd]
+  exact (subsup_eq d numb w _).symm
+
+/-- CAPSTONE: `mk_association(m, r_rel)` of the generated IR — the dispatch over the R206 subtype row and each of
+    mk_simple_association / mk_linked_association (+ _mk_assoc) / mk_subsuper_association / mk_derived_association /
+    _get_related_attributes behind it — ends as the model's `mkAssociation` says, for EVERY diagram, relationship number and
+    rows, every `define_association` argument and every AttributeError / TypeError ending included -/
+theorem association_as_in_source (d : ClassDiagram) (numb : Nat) (w : RelRows) :
+    expected numb (mkAssociation d w) = iMkAssociation defs d numb w := by
+  cases hd : w.dispatch with
+  | linked => exact linked_association_as_in_source d numb w hd
+  | comp => exact (derived_and_untyped_association_as_in_source d numb w).1 hd
+  | simple => exact simple_association_as_in_source d numb w hd
+  | subsup => exact subsuper_association_as_in_source d numb w hd
+  | none => exact (derived_and_untyped_association_as_in_source d numb w).2 hd
+
+/-- the theorems applied: two subtype rows on one supertype (two associations B -> A with the number 7, each with its own key) … -/
+example : iMkAssociation defs tieD 7 tieSubsup =
+    .ok [(7, { src := { kind := "B", keys := ["A_Id"], many := false, cond := true, phrase := "" },
+               tgt := { kind := "A", keys := ["Id"], many := false, cond := false, phrase := "" } }),
+         (7, { src := { kind := "B", keys := ["Id"], many := false, cond := true, phrase := "" },
+               tgt := { kind := "A", keys := ["Id"], many := false, cond := false, phrase := "" } })] :=
+  (subsuper_association_as_in_source tieD 7 tieSubsup (by decide)).symm
+/-- … the error endings and the silent one: no R_SUB row (nothing defined, even without R_SUPER), no R_SUPER row, a supertype class
+    that does not exist, a SECOND subtype row whose O_REF names a missing attribute (the first row has already defined), a
+    missing subtype class -/
+example : iMkAssociation defs tieD 7 { subsup := true } = .ok [] :=
+  (association_as_in_source tieD 7 { subsup := true }).symm
+example : iMkAssociation defs tieD 7 { tieSubsup with super := none } = .error .attributeError :=
+  (association_as_in_source tieD 7 { tieSubsup with super := none }).symm
+example : iMkAssociation defs tieD 7 { tieSubsup with super := some 9 } = .error .attributeError :=
+  (association_as_in_source tieD 7 { tieSubsup with super := some 9 }).symm
+example : iMkAssociation defs tieD 7
+    { tieSubsup with subs := [(2, [{ rattr := 2, iattr := 1 }]), (2, [{ rattr := 5, iattr := 1 }])] } = .error .attributeError :=
+  (association_as_in_source tieD 7 _).symm
+example : iMkAssociation defs tieD 7 { tieSubsup with subs := [(2, []), (9, [])] } = .error .attributeError :=
+  (association_as_in_source tieD 7 _).symm
+/-- … and the kernel evaluates the interpretation of the IR to the same ending -/
+example : sameR (iMkAssociation defs tieD 7
+    { tieSubsup with subs := [(2, [{ rattr := 2, iattr := 1 }]), (2, [{ rattr := 5, iattr := 1 }])] }) (.error .attributeError) = true := by
   decide +kernel
 
 end PyxProps.C14
